@@ -16,9 +16,15 @@ type Effects struct {
 	Vars    map[string]sortFn
 	OldVars map[string]sortFn // variables whose old()-snapshot is reset (monitor re-acquisition)
 	All     bool
+	// Locs: for arrays only written at known objects (SSA values), the objects; a variable that is in Vars but
+	// has Whole[v] set is written at unknown places
+	Locs  map[string][]ssa.Value
+	Whole map[string]bool
 }
 
-func newEffects() *Effects { return &Effects{Vars: map[string]sortFn{}, OldVars: map[string]sortFn{}} }
+func newEffects() *Effects {
+	return &Effects{Vars: map[string]sortFn{}, OldVars: map[string]sortFn{}, Locs: map[string][]ssa.Value{}, Whole: map[string]bool{}}
+}
 
 func (e *Effects) add(o *Effects) {
 	if o.All {
@@ -29,6 +35,14 @@ func (e *Effects) add(o *Effects) {
 	}
 	for v, f := range o.OldVars {
 		e.OldVars[v] = f
+	}
+	for v, l := range o.Locs {
+		e.Locs[v] = append(e.Locs[v], l...)
+	}
+	for v := range o.Vars {
+		if _, precise := o.Locs[v]; !precise || o.Whole[v] {
+			e.Whole[v] = true
+		}
 	}
 }
 
@@ -388,6 +402,9 @@ func (eng *Engine) localEffects(ins ssa.Instruction, s *sorts, res *Effects, wal
 	case *ssa.Store:
 		eng.storeEffects(x.Addr, s, res)
 	case *ssa.MapUpdate:
+		if _, own := x.Map.(*ssa.MakeMap); own {
+			return // a map created by this very call: its locations did not exist before
+		}
 		if mt, ok := x.Map.Type().Underlying().(*types.Map); ok {
 			addMapVars(s, mt, res.Vars)
 		}
@@ -586,9 +603,28 @@ func (eng *Engine) instrEffects(ins ssa.Instruction, g *vcgen) *Effects {
 	s := g.s
 	walk := func(fn *ssa.Function) { res.add(eng.FuncEffects(fn)) }
 	switch x := ins.(type) {
+	case *ssa.MapUpdate:
+		if mt, ok := x.Map.Type().Underlying().(*types.Map); ok {
+			m := map[string]sortFn{}
+			addMapVars(s, mt, m)
+			for n, f := range m {
+				res.Vars[n] = f
+				res.Locs[n] = append(res.Locs[n], x.Map)
+			}
+		}
 	case *ssa.Store:
 		if al, ok := x.Addr.(*ssa.Alloc); ok {
 			pointeeVars(s, al.Type().Underlying().(*types.Pointer).Elem(), res.Vars, 0)
+		} else if fa, ok := x.Addr.(*ssa.FieldAddr); ok {
+			st := fa.X.Type().Underlying().(*types.Pointer).Elem()
+			ft := st.Underlying().(*types.Struct).Field(fa.Field).Type()
+			if _, isS := ft.Underlying().(*types.Struct); isS && isDecomposedStruct(ft) {
+				eng.storeEffects(x.Addr, s, res)
+			} else {
+				n := fieldArrName(st, fa.Field)
+				res.Vars[n] = arrOf(ft)
+				res.Locs[n] = append(res.Locs[n], fa.X)
+			}
 		} else {
 			eng.storeEffects(x.Addr, s, res)
 		}
